@@ -91,10 +91,17 @@ Proof.
        rewrite map_length, Hl, Nat.eqb_refl, andb_false_r;
        rewrite gob_into_zero by exact Hl;
        rewrite after_after; cbn [rsess after]; rewrite Hs; destruct rest; reflexivity.
-  destruct es as [|[t1 u1] es]; [discriminate|]. simpl in Hes. injection Hes as -> Hes. simpl in Hst.
+  1: { destruct es as [|[t1 u1] es]; [discriminate|]. simpl in Hes. injection Hes as -> Hes. simpl in Hst.
+       rewrite (rd_pop r _ _ _ _ Hst).
+       erewrite dec_vals_ok; [| exact Hes | reflexivity | cbn [rsess after]; exact Hs | rewrite map_length; exact Hl].
+       rewrite after_after. reflexivity. }
+  destruct es as [|[t1 u1] [|[t2 u2] [|? ?]]]; try discriminate.
+  simpl in Hes. injection Hes as -> ->. simpl in Hst.
   rewrite (rd_pop r _ _ _ _ Hst).
-  erewrite dec_vals_ok; [| exact Hes | reflexivity | cbn [rsess after]; exact Hs | rewrite map_length; exact Hl].
-  rewrite after_after. reflexivity.
+  rewrite (rd_pop (after r [(TFlag true, u1)] ((TBulk cl, u2) :: fst rest, snd rest) (rsess r))
+                  (TBulk cl) u2 (fst rest) (snd rest) eq_refl).
+  rewrite copy_into_same by (rewrite map_length; exact Hl).
+  rewrite after_after. cbn [rsess after]. rewrite Hs. destruct rest; reflexivity.
 Qed.
 
 Lemma dec_cols_ok sch : forall f (r : R) es rest s mem0,
@@ -132,6 +139,34 @@ Proof.
   rewrite (rd_pop (after r es ((TCrc c, uc) :: fst rest, snd rest) (cols_sess Sess cenc s sch f)) (TCrc c) uc (fst rest) (snd rest) eq_refl).
   cbn [rcrc after]. destruct (N.eqb _ c); [|reflexivity].
   rewrite after_after. destruct rest; reflexivity.
+Qed.
+
+(* columns that all use the bulk custom codec: its Decode copies whatever slice it got, so
+   the column tokens are accepted into a view of ANY length; the session is not used *)
+Lemma dec_cols_bulk sch : Forall (fun k => k = KCodecBulk) sch ->
+  forall f (r : R) es rest s mem,
+  map fst es = cols_toks Sess cenc s sch f ->
+  rst r = (es ++ fst rest, snd rest) ->
+  length f = length sch -> length mem = length sch ->
+  exists f', dec_cols dscript dec_script Sess cdec cf r sch mem = DfOk f' (after r es rest (rsess r)).
+Proof.
+  induction sch as [|k ks IH]; intros Hall f r es rest s mem Hes Hst Hl Hm.
+  - destruct f; [|discriminate]. destruct es; [|discriminate]. simpl. exists [].
+    rewrite after_nil; [reflexivity|]. rewrite Hst. destruct rest; reflexivity.
+  - inversion Hall as [|? ? Hk Hall']; subst.
+    destruct f as [|cl f]; [discriminate|]. destruct mem as [|view mem]; [discriminate|].
+    cbn [cols_toks col_toks col_sess app] in Hes.
+    destruct es as [|[t1 u1] [|[t2 u2] es]]; try discriminate.
+    simpl in Hes. injection Hes as -> -> Hes. simpl in Hst.
+    cbn [dec_cols]. unfold dec_col.
+    rewrite (rd_pop r _ _ _ _ Hst).
+    rewrite (rd_pop (after r [(TFlag true, u1)] ((TBulk cl, u2) :: es ++ fst rest, snd rest) (rsess r))
+                    (TBulk cl) u2 (es ++ fst rest) (snd rest) eq_refl).
+    change (rsess (after r [(TFlag true, u1)] ((TBulk cl, u2) :: es ++ fst rest, snd rest) (rsess r))) with (rsess r).
+    rewrite after_after.
+    destruct (IH Hall' f (after r ([(TFlag true, u1)] ++ [(TBulk cl, u2)]) (es ++ fst rest, snd rest) (rsess r))
+                 es rest s mem Hes eq_refl) as [f' Hf']; [simpl in Hl; lia|simpl in Hm; lia|].
+    rewrite Hf'. eexists. rewrite after_after. reflexivity.
 Qed.
 
 (* ================================================================ cut lemmas: the script ends early with failure [term] *)
@@ -191,15 +226,23 @@ Proof.
          rewrite (rd_end (after r [(TFlag false, u1)] ([], term) (rsess r)) term eq_refl);
          destruct term; reflexivity
        | simpl in Hi; lia ].
-  destruct es as [|[t1 u1] es]; [discriminate|]. simpl in Hes. injection Hes as -> Hes.
-  destruct i as [|i]; simpl in Hst.
+  1: { destruct es as [|[t1 u1] es]; [discriminate|]. simpl in Hes. injection Hes as -> Hes.
+       destruct i as [|i]; simpl in Hst.
+       - rewrite (rd_end r _ Hst). destruct term; reflexivity.
+       - rewrite (rd_pop r _ _ _ _ Hst).
+         erewrite dec_vals_cut; [| exact Hes | reflexivity | cbn [rsess after]; exact Hs | rewrite map_length; exact Hl | simpl in Hi; lia].
+         cbn [nth]. simpl in Hi.
+         destruct (vals_toks_nth s cl i) as [x Hx].
+         { rewrite <- (vals_toks_length s cl), <- Hes, map_length. lia. }
+         rewrite Hx. destruct term; reflexivity. }
+  destruct es as [|[t1 u1] [|[t2 u2] [|? ?]]]; try discriminate.
+  simpl in Hes. injection Hes as -> ->.
+  destruct i as [|[|i]]; simpl in Hst.
   - rewrite (rd_end r _ Hst). destruct term; reflexivity.
   - rewrite (rd_pop r _ _ _ _ Hst).
-    erewrite dec_vals_cut; [| exact Hes | reflexivity | cbn [rsess after]; exact Hs | rewrite map_length; exact Hl | simpl in Hi; lia].
-    cbn [nth]. simpl in Hi.
-    destruct (vals_toks_nth s cl i) as [x Hx].
-    { rewrite <- (vals_toks_length s cl), <- Hes, map_length. lia. }
-    rewrite Hx. destruct term; reflexivity.
+    rewrite (rd_end (after r [(TFlag true, u1)] ([], term) (rsess r)) term eq_refl).
+    destruct term; reflexivity.
+  - simpl in Hi. lia.
 Qed.
 
 Lemma firstn_app_le {A} (a b : list A) i : i <= length a -> firstn i (a ++ b) = firstn i a.
